@@ -28,7 +28,7 @@ THEOREMS = [
 NOT_COVERED = ["the copy itself (isomorphism, disjointness, independence) is performed by CPython and is established by the "
                "correspondence run over every entry node and protocol, not by a theorem"]
 PREDICATE_SPEC = True
-KINDS = ["node", "anynode", "user", "symlink", "symlink"]
+KINDS = ["node", "anynode", "user", "falsy", "eq", "symlink", "symlink"]
 RULE = ("seeded random forests of 3-8 (thorough 12) objects of classes Node/AnyNode/user NodeMixin/SymlinkNode (links to earlier "
         "objects, also to links and across trees) or all LightNodeMixin, shaped by random parent/children assignments; every object "
         "as entry node; deepcopy and pickle protocols 0..HIGHEST (>=2 with __slots__). Distinct = distinct forest; non-trivial = at "
@@ -44,7 +44,7 @@ def generate(tier, rng):
             if light:
                 kinds.append("light")
             else:
-                k = rng.choice(KINDS) if i > 0 else rng.choice(KINDS[:3])
+                k = rng.choice(KINDS) if i > 0 else rng.choice(KINDS[:5])
                 kinds.append(k)
                 if k == "symlink":
                     targets.append([i, rng.randrange(i)])
